@@ -37,6 +37,8 @@ def rec_strategy(allow):
             st.tuples(st.just('upd'), st.integers(0, 30), st.sampled_from(PAD_SIZES))]
     if 'stale' in allow:
         opts.append(st.tuples(st.just('stale'), st.integers(0, 30), st.integers(1, 3)))
+        # the storage-side test behind readCurrent: (third element 0: the current serial; > 0: an older one - refused)
+        opts.append(st.tuples(st.just('check'), st.integers(0, 30), st.sampled_from([0, 0, 1, 2])))
     if 'del' in allow:
         # (third element > 0: with the serial of an older revision - refused like a stale store)
         opts.append(st.tuples(st.just('del'), st.integers(0, 30), st.sampled_from([0, 0, 1, 2])))
@@ -433,9 +435,19 @@ class StorageRunner:
             elif kind == 'stale':
                 oid = self.pick_oid(r[1])
                 revs = self.model.revisions(oid)
-                if len(revs) < 2 or oid in pending or revs[-1][1] is None or not self.can_stale(oid):
-                    continue        # (writing to an un-created object is outside the callers' domain)
+                if len(revs) < 2 or oid in pending or not self.can_stale(oid):
+                    continue
+                if revs[-1][1] is None and not self.kind.startswith('fs'):
+                    continue        # (an object that has been un-created meanwhile: file storages only)
                 stale = revs[max(0, len(revs) - 1 - max(1, r[2]))][0]
+                if revs[-1][1] is None:
+                    # a writer that loaded the object before its creation was undone (or before it was deleted) commits
+                    # now: a conflict like any other
+                    older = [x for x in revs[:-1] if x[1] is not None]
+                    if not older:
+                        continue
+                    stale = older[-1][0]
+                    self.labels.add('stale-store-onto-uncreated-object')
                 data = records.make_record(self.new_uid())
                 try:
                     s.store(oid, stale, data, '', t)
@@ -447,6 +459,32 @@ class StorageRunner:
                           'store(%r, serial=%r) but current is %r' % (oid, stale, revs[-1][0]))
                 failed = True
                 break
+            elif kind == 'check':
+                oid = self.pick_oid(r[1])
+                revs = self.model.revisions(oid)
+                if not revs or oid in pending or revs[-1][1] is None or not hasattr(s, 'checkCurrentSerialInTransaction'):
+                    continue
+                if r[2] and len(revs) >= 2 and self.can_stale(oid):
+                    stale = revs[max(0, len(revs) - 1 - r[2])][0]
+                    try:
+                        s.checkCurrentSerialInTransaction(oid, stale, t)
+                    except ConflictError:
+                        self.labels.add('conflict')
+                        self.labels.add('stale-readcurrent-refused')
+                        failed = True
+                        break
+                    self.fail('checkCurrentSerialInTransaction', 'stale-serial-accepted',
+                              'checkCurrentSerialInTransaction(%r, %r) but current is %r' % (oid, stale, revs[-1][0]))
+                    failed = True
+                    break
+                try:
+                    s.checkCurrentSerialInTransaction(oid, revs[-1][0], t)
+                except ConflictError as e:
+                    self.fail('checkCurrentSerialInTransaction', 'current-serial-refused',
+                              'checkCurrentSerialInTransaction(%r, current serial %r) raised %r' % (oid, revs[-1][0], e))
+                    failed = True
+                    break
+                self.labels.add('readcurrent-verified')
             elif kind == 'del':
                 if not self.kind.startswith('fs'):
                     continue
